@@ -1,6 +1,6 @@
 """C01 — every executed iteration is counted exactly once, with its true outcome."""
 ID = "C01"
-PROPS = ["F1Verif.Props.C01", "F1Verif.Props.C17", "F1Verif.Props.FactsC01", "F1Verif.Props.RefineC17", "F1Verif.Props.RefineC17Run", "F1Verif.Props.RefineC06T", "F1Verif.Props.RefineC19R", "F1Verif.Props.RefineC05R", "F1Verif.Props.RefineC05U"]
+PROPS = ["F1Verif.Props.C01", "F1Verif.Props.C17", "F1Verif.Props.FactsC01", "F1Verif.Props.RefineC17", "F1Verif.Props.RefineC17Run", "F1Verif.Props.RefineC06T", "F1Verif.Props.RefineC19R", "F1Verif.Props.RefineC05R", "F1Verif.Props.RefineC05U", "F1Verif.Props.RefineC15F"]
 RULE = ("engine B: scripted schedules on the real progress.Stats through the progress.collect yield point — records of "
         "either outcome executed while a Snapshot/Total is parked between draining the period accumulators and merging "
         "them (every collect of a script may carry injections at its successful and at its failed yield point); "
